@@ -635,7 +635,11 @@ class FixedKeyDictNode(MappingNode, SequenceNode[Dict[LeafNode, KeyValuePairNode
             return Replace(self, node)
 
     def items(self) -> Iterator[Tuple[LeafNode, TreeNode]]:
-        yield from iter(self._children.items())
+        for key, kvp in self._children.items():
+            yield key, kvp.value
+
+    def copy_from(self: C, children: Iterable[KeyValuePairNode]) -> C:
+        return self.__class__({kvp.key: kvp for kvp in children})
 
     def editable_dict(self) -> Dict[str, Any]:
         ret = dict(self.__dict__)
